@@ -37,6 +37,32 @@ def entryBytes (e : Entry) : Bytes :=
 def idxEntries (idx : Bytes) : List Entry :=
   (List.range (idx.length / 16)).map fun i => parseEntry ((idx.drop (16 * i)).take 16)
 
+/-! ## `idx.WalkIndexFile`: the index is read in batches of `rows` entries -/
+
+/-- `ReadAt(buf[0:n], off)` on a file: the bytes read and whether `io.EOF` came with them (fewer than `n`) -/
+def readAt (f : Bytes) (off n : Nat) : Bytes × Bool :=
+  let b := (f.drop off).take n
+  (b, decide (b.length < n))
+
+/-- the `for count > 0 && e == nil || e == io.EOF { … }` loop with the variables of the Go code:
+    `off` = readerOffset, `chunk` = bytes[0:count], `eof` = (e == io.EOF), `acc` = entries handed to `fn` so far.
+    Result: (entries, error returned) — the loop exits through `return nil` inside the body, or falls out to `return e`. -/
+def walkFrom (rows : Nat) (f : Bytes) : Nat → Nat → Bytes → Bool → List Entry → List Entry × Bool
+  | 0, _, _, _, acc => (acc, true)
+  | fuel + 1, off, chunk, eof, acc =>
+    if (chunk.length > 0 ∧ eof = false) ∨ eof = true then
+      let acc' := acc ++ idxEntries chunk        -- for i := 0; i+16 <= count; i += 16
+      if eof then (acc', false) else
+      let (c2, e2) := readAt f off (16 * rows)
+      walkFrom rows f fuel (off + c2.length) c2 e2 acc'
+    else (acc, eof)                              -- `return e`
+
+/-- `WalkIndexFile(file, fn)`: (entries visited, error?) -/
+def walkIndex (rows : Nat) (f : Bytes) : List Entry × Bool :=
+  let (c, e) := readAt f 0 (16 * rows)
+  if c.length = 0 ∧ e = true then ([], false) else
+  walkFrom rows f (f.length + 2) c.length c e []
+
 /-! ## the data file as `backend.DiskFile` sees it -/
 
 structure Dat where
@@ -133,6 +159,8 @@ def checkAndFix (crc : Bytes → UInt32) (d : Dat) (idx : Bytes) : Dat × Bytes 
 structure Vol where
   /-- the loader panicked (nil `*SortedFileNeedleMap` dereferenced in the deferred cleanup) -/
   panicked : Bool := false
+  /-- `NewVolume` returned an error (loading the needle map failed): the volume is not mounted -/
+  failed : Bool := false
   readOnly : Bool := false
   dat : Dat
   idx : Bytes
@@ -143,18 +171,21 @@ def superBlock : Bytes := [3, 0, 0, 0, 0, 0, 0, 0]
 
 def freshVol : Vol := { dat := openDat superBlock, idx := [] }
 
-/-- the part of `Volume.load` after the integrity check: an error ⇒ read-only with the sorted-file map -/
-def loadChecked (r : Dat × Bytes × Bool) : Vol :=
+/-- the part of `Volume.load` after the integrity check: an error ⇒ read-only with the sorted-file map; otherwise
+    `LoadCompactNeedleMap` walks the index in batches of `rows` entries, and a walker error fails the load -/
+def loadChecked (rows : Nat) (r : Dat × Bytes × Bool) : Vol :=
   if r.2.2 then { readOnly := true, dat := r.1, idx := r.2.1, map := loadSorted (idxEntries r.2.1) }
-  else { dat := r.1, idx := r.2.1, map := loadCompact (idxEntries r.2.1) }
+  else
+    let w := walkIndex rows r.2.1
+    { failed := w.2, dat := r.1, idx := r.2.1, map := loadCompact w.1 }
 
-/-- `Volume.load` on existing files (after the super block was read) -/
-def load (crc : Bytes → UInt32) (dat idx : Bytes) : Vol :=
+/-- `Volume.load` on existing files (after the super block was read); `rows` = `idx.RowsToRead` -/
+def load (rows : Nat) (crc : Bytes → UInt32) (dat idx : Bytes) : Vol :=
   if idx.length % 16 ≠ 0 then
     -- verifyIndexFileIntegrity fails ⇒ read-only ⇒ NewSortedFileNeedleMap fails on the same size check and returns
     -- a typed nil that the deferred cleanup calls Close() on
     { panicked := true, readOnly := true, dat := openDat dat, idx := idx }
-  else loadChecked (checkAndFix crc (openDat dat) idx)
+  else loadChecked rows (checkAndFix crc (openDat dat) idx)
 
 /-! ## reads and writes -/
 
@@ -166,7 +197,7 @@ deriving Repr, DecidableEq
 
 /-- `Volume.readNeedle` (no TTL) through `Store.ReadVolumeNeedle` -/
 def readNeedle (crc : Bytes → UInt32) (v : Vol) (id : Nat) : ReadRes :=
-  if v.panicked then .novol else
+  if v.panicked ∨ v.failed then .novol else
   match mget v.map id with
   | none => .notFound
   | some (off, size) =>
@@ -189,7 +220,7 @@ def appendRec (d : Dat) (bytes : Bytes) : Dat :=
 
 /-- `Store.WriteVolumeNeedle` → `doWriteRequest` -/
 def writeNeedle (crc : Bytes → UInt32) (v : Vol) (n : Needle) : Vol × WriteRes :=
-  if v.panicked then (v, .novol) else
+  if v.panicked ∨ v.failed then (v, .novol) else
   if v.readOnly then (v, .readOnly) else
   let old := mget v.map n.id
   let unchanged := match old with
@@ -219,7 +250,7 @@ def writeNeedle (crc : Bytes → UInt32) (v : Vol) (n : Needle) : Vol × WriteRe
 
 /-- `Store.DeleteVolumeNeedle` → `doDeleteRequest`: returns the freed size (0 = nothing done) -/
 def deleteNeedle (v : Vol) (n : Needle) : Vol × Option Int :=
-  if v.panicked ∨ v.readOnly then (v, none) else
+  if v.panicked ∨ v.failed ∨ v.readOnly then (v, none) else
   match mget v.map n.id with
   | some (_, size) =>
     if size > 0 then
